@@ -75,6 +75,7 @@ class Runner:
         self.closer = None
         self.close_end_emitted = False
         self.known_msgs = set()
+        self.pending_lines = []
         orig_send = self.session.send
 
         def send(message):
@@ -174,6 +175,9 @@ class Runner:
                 'sid': sid, 'caps': caps}
 
     def _cmd_done(self, first):
+        if self.pending_lines:
+            self.lines += self.pending_lines
+            self.pending_lines = []
         self._maybe_close_end()
         self.spans.append((first, len(self.lines)))
         self.obs.append(self.observe())
@@ -241,6 +245,38 @@ class Runner:
                 self.lines.append('ss op cSend ' + hexb(self.sent[-1].encode()))
             else:
                 self.lines.append('ss op cSend b')
+        elif k == 'trap':
+            # a pending request object owned by the harness: when the worker delivers an error to it, it
+            # creates (registers + sends) another request, i.e. a client thread doing so at that very moment
+            n = len(self.rpcs) + 1
+            runner = self
+
+            class Trap:
+                def __init__(self):
+                    self.event = threading.Event()
+                    self.error = None
+                    self.reply = None
+                    self.fired = False
+
+                def deliver_error(self, err):
+                    self.error = err
+                    self.event.set()
+                    if not self.fired:
+                        self.fired = True
+                        runner._inner_request()
+
+                def deliver_reply(self, raw):
+                    class _R:
+                        xml = raw
+                    self.reply = _R()
+                    self.event.set()
+            t = Trap()
+            from ncclient.operations.rpc import RPCReplyListener
+            self.idgen()                      # consume id n so that indices and message-ids stay aligned
+            RPCReplyListener(s, self.dh).register(msg_id(n), t)
+            self.rpcs.append(t)
+            self.req_status.append('trap')
+            self.lines.append('ss op cNew %d' % n)
         elif k == 'w':
             kind = self.ctl.parked[0]
             a = cmd[1]
@@ -248,8 +284,12 @@ class Runner:
                 self.lines.append('ss op wTop %d' % (1 if a else 0))
                 self.ctl.answer(bool(a))
             elif kind == 'write':
-                self.lines.append('ss op wWrite %d' % int(a))
-                self.ctl.answer(int(a))
+                if a == 'err':
+                    self.lines.append('ss op wWriteErr')
+                    self.ctl.answer(L.InjectedReadError('injected write error'))
+                else:
+                    self.lines.append('ss op wWrite %d' % int(a))
+                    self.ctl.answer(int(a))
             elif kind == 'select':
                 self.lines.append('ss op wSelect %d' % (1 if a else 0))
                 self.ctl.answer([1] if a else [])
@@ -288,6 +328,24 @@ class Runner:
         else:
             raise ValueError(cmd)
         self._cmd_done(first)
+
+    def _inner_request(self):
+        n = len(self.rpcs) + 1
+        before = len(self.sent)
+        try:
+            mgr = manager.Manager(self.session, self.dh, timeout=30)
+            mgr.async_mode = True
+            r = mgr.rpc(new_ele('inner%d' % n))
+            self.rpcs.append(r)
+            self.req_status.append('sent')
+        except Exception as e:
+            self.rpcs.append(None)
+            self.req_status.append('refused')
+        self.pending_lines.append('ss op cNew %d' % n)
+        if len(self.sent) > before:
+            self.pending_lines.append('ss op cSend ' + hexb(self.sent[-1].encode()))
+        else:
+            self.pending_lines.append('ss op cSend b')
 
     def finish_all(self):
         """Release every thread so that the process can go on (worker may stay parked; daemon)."""
